@@ -263,8 +263,10 @@ def view(P, f, keep=None):
     return cache[k]
 
 
-def facts(fn):
+def facts(fn, relevant=None, tag=None):
+    """path facts of fn (cached); `relevant` restricts the recorded facts (use a `tag` to cache a restricted analysis)"""
     from . import facts as FA
-    if getattr(fn, "_facts", None) is None:
-        fn._facts = FA.Facts(fn)
-    return fn._facts
+    cache = fn.__dict__.setdefault("_facts_cache", {})
+    if tag not in cache:
+        cache[tag] = FA.Facts(fn, relevant=relevant)
+    return cache[tag]
